@@ -664,7 +664,8 @@ pub fn check_property(plan: &Plan) -> i32 {
         "wall_s": wall,
         "violations": violations_total,
     });
-    let dir = Path::new(VERIF_ROOT).join("evidence");
+    // VERIF_EVIDENCE_DIR: trial runs against seeded changes must not overwrite the evidence of the real tree
+    let dir = std::env::var("VERIF_EVIDENCE_DIR").map(std::path::PathBuf::from).unwrap_or_else(|_| Path::new(VERIF_ROOT).join("evidence"));
     let _ = std::fs::create_dir_all(&dir);
     std::fs::write(dir.join(format!("{}.json", plan.property)), serde_json::to_string_pretty(&ev).unwrap()).expect("write evidence");
     println!(
